@@ -254,6 +254,13 @@ class Stack(Model):
             return Stack(self.elems[idx])
         raise Unsupported("Stack indexed with %r" % (idx,))
 
+    def __setitem__(self, idx, value):
+        first = idx[0] if isinstance(idx, tuple) else idx
+        if isinstance(first, int) and (not isinstance(idx, tuple) or all(r is Ellipsis or r == slice(None) for r in idx[1:])):
+            self.elems[first] = value
+            return
+        raise Unsupported("Stack element assignment with %r" % (idx,))
+
     def _map(self, f):
         return Stack([f(e) for e in self.elems])
 
